@@ -66,6 +66,12 @@ class FieldData:
     elif self.virtual:
       raise gfapy.RuntimeError("Virtual lines do not have tags")
     elif (self.vlevel == 0) or self._is_valid_custom_tagname(fieldname):
+      if not self._is_valid_custom_tagname(fieldname) and \
+          (not isinstance(fieldname, str) or hasattr(self, fieldname)):
+        # also without validation: the accessor of such a tag would take
+        # the place of an attribute of the line
+        raise gfapy.FormatError(
+          "{} cannot be used as tag name".format(repr(fieldname)))
       self._define_field_methods(fieldname)
       if self._datatype.get(fieldname, None) is not None:
         return self._set_existing_field(fieldname, value)
